@@ -3,7 +3,7 @@
 # fails with the change applied, passes without (scratch worktree /tmp/w1/repo).
 set -u
 M="$(readlink -f "$1")"
-W=/tmp/w1/repo
+W=${SEED_W:-/tmp/w1/repo}
 export GOFLAGS=-mod=mod GOPROXY=off GOSUMDB=off GOTOOLCHAIN=local
 git -C "$W" checkout -q -- . && git -C "$W" clean -qfd
 run_demo() {
